@@ -100,14 +100,20 @@ def gating_rule(ctx, I):
     restrict = {('fld', 'P', '_activePrintJob'): [False]}
     cases = []
     for g in gcodes_to_analyse(ctx.model):
-        cases.append(('handleGcodeQueuing', [Opaque('comm'), Str('queuing'), SStr('CMD', nonempty=True), NONE, Str(g)]))
-    cases.append(('handleAtCommandQueuing', [Opaque('comm'), Str('queuing'), SStr('ATCMD', nonempty=True), SStr('PARAMS')]))
+        # every argument OctoPrint supplies is unknown: command type, sub code and the tag set may be None or anything else
+        cases.append(('handleGcodeQueuing', [Opaque('comm'), SStr('PHASE'), SStr('CMD', nonempty=True),
+                                             I.maybe(('null', 'arg:cmdType'), SStr('CMDTYPE')), Str(g),
+                                             I.maybe(('null', 'arg:subcode'), Opaque('SUBCODE')),
+                                             I.maybe(('null', 'arg:tags'), Opaque('TAGS'))]))
+    cases.append(('handleAtCommandQueuing', [Opaque('comm'), SStr('PHASE'), SStr('ATCMD', nonempty=True), SStr('PARAMS'),
+                                             I.maybe(('null', 'arg:tags'), Opaque('TAGS'))]))
     cases.append(('handleScriptHook', [Opaque('comm'), Str('gcode'), Str('afterPrintDone')]))
     cases.append(('handleScriptHook', [Opaque('comm'), SStr('TYPE'), SStr('NAME')]))
     for name, args in cases:
         paths = run_plugin_method(I, name, args, restrict=restrict)
         for p in paths:
-            tag = '%s(%s)' % (name, args[-1].s if isinstance(args[-1], Str) else '...')
+            lits = [a.s for a in args if isinstance(a, Str)]
+            tag = '%s(%s)' % (name, lits[-1] if lits else '...')
             ctx.instance('C11.R2', tag)
             eff = effects(p)
             if isinstance(p.ret, Raised) or p.ret is not NONE or eff:
